@@ -56,6 +56,17 @@ def check_correlation(ctx, model, df, where, prop='C02'):
     const = np.array([df[c].nunique() == 1 for c in cols])
     Zs = mv.normal_scores(model, df)
     Cref, score_const = mv.pearson(Zs)
+    # a non-constant column may end up with constant normal scores only when a scipy MLE diverged to a spike
+    # at floating-point resolution; marginals with closed-form / kernel estimators cannot do that
+    robust = []
+    for u in model.univariates:
+        inner = getattr(u, '_instance', None) or u
+        robust.append(type(inner).__name__ in ('GaussianUnivariate', 'UniformUnivariate', 'GaussianKDE'))
+    robust = np.array(robust)
+    bad_const = score_const & ~const & robust
+    ctx.check(not bad_const.any(), 'corr.nonconstant-column-has-scores', prop + ':non-constant-column-modelled-as-constant',
+              lambda: dict(where, columns=[repr(c) for c, b in zip(cols, bad_const) if b],
+                           marginals=[type(getattr(u, '_instance', None) or u).__name__ for u in model.univariates]))
     degenerate = const | score_const
     diag = np.diag(A)
     ok_diag = (np.abs(diag[~degenerate] - 1) <= 2 * EPS32).all() and (np.abs(diag[degenerate]) <= 2 * EPS32).all()
